@@ -30,6 +30,7 @@ type c15Op struct {
 	Which int          `json:"which,omitempty"` // download / label: which initial bundle
 	Slow  int          `json:"slow,omitempty"`  // the first n blob writes of the operation are slow
 	Wait  int          `json:"wait,omitempty"`  // milliseconds the operation waits before it starts
+	Many  int          `json:"many,omitempty"`  // upload: this many generated small files instead of Files
 	// observed
 	Done  bool                 `json:"done"`
 	Err   string               `json:"err,omitempty"`
@@ -46,6 +47,7 @@ type c15Case struct {
 	Before  [][2]string          `json:"before"` // blob store before: key, digest
 	Races   int                  `json:"races"`
 	Hung    bool                 `json:"hung,omitempty"`
+	SlowLists bool               `json:"slowlists,omitempty"` // file lists take 60 ms to write
 }
 
 var c15Raw = true // results are kept readable in the case; digests go to Coq
@@ -80,15 +82,18 @@ func c15FilesDigest(fs []world.File) string {
 // one operation on a world seen through recording stores; returns the digest of its result
 // c15Shared puts recording stores in front of the stores of a world. All operations of a run go through the
 // same store objects, as operations of one process do (caches keyed by store would otherwise be out of reach).
-func c15Shared(w *world.World, log *memstore.PutLog, slow int32) *world.World {
+func c15Shared(w *world.World, log *memstore.PutLog, slow int32, slowLists ...bool) *world.World {
 	wa := *w
 	var delay *int32
 	if slow > 0 {
 		delay = &slow // the first blob writes of the run travel over a slow link
 	}
 	meta := &memstore.Recorder{Store: w.Meta, Log: log, Name: "meta"}
+	if len(slowLists) > 0 && slowLists[0] {
+		meta.SlowSubstr, meta.SlowFor = "bundle-files-", 60*time.Millisecond
+	}
 	vmeta := &memstore.Recorder{Store: w.VMeta, Log: log, Name: "vmeta"}
-	blob := &memstore.Recorder{Store: w.Blob, Log: log, Name: "blob", Delay: delay}
+	blob := &memstore.Recorder{Store: w.Blob, Log: log, Name: "blob", Delay: delay, Jitter: 300 * time.Microsecond}
 	wa.WrapMeta = func(storage.Store) storage.Store { return meta }
 	wa.WrapVMeta = func(storage.Store) storage.Store { return vmeta }
 	wa.WrapBlob = func(storage.Store) storage.Store { return blob }
@@ -101,7 +106,14 @@ func c15Do(wa *world.World, id int, o *c15Op, ids []string, r *gen.Rand, seq int
 	switch o.Kind {
 	case "upload":
 		bid := kid(gen.New(uint64(seq)), 5000+seq)
-		if _, err := wa.Upload("repo", world.Consumable(o.Files), world.UploadOpts{LeafSize: 64, BundleID: bid, Message: "c15", Concurrency: 4}); err != nil {
+		files, conc := o.Files, 4
+		if o.Many > 0 { // many small files, mostly the same in every such upload: more than one file list
+			files, conc = nil, 20
+			for j := 0; j < o.Many; j++ {
+				files = append(files, world.File{Name: fmt.Sprintf("many/f%04d", j), Data: []byte(fmt.Sprintf("%s/%d", c15Pool[j%3], j%40))})
+			}
+		}
+		if _, err := wa.Upload("repo", world.Consumable(files), world.UploadOpts{LeafSize: 64, BundleID: bid, Message: "c15", Concurrency: conc}); err != nil {
 			return "", err
 		}
 		es, err := wa.Entries("repo", bid)
@@ -109,6 +121,9 @@ func c15Do(wa *world.World, id int, o *c15Op, ids []string, r *gen.Rand, seq int
 			return "", err
 		}
 		sort.Slice(es, func(i, j int) bool { return es[i].Name < es[j].Name })
+		if o.Many > 0 {
+			return c15Digest(es), nil
+		}
 		got, err := wa.Download("repo", bid, 0, nil)
 		if err != nil {
 			return "", err
@@ -186,6 +201,9 @@ func c15RaceCount() int {
 }
 
 func c15Run(cs *c15Case, r *gen.Rand) {
+	// the detector reports a racing pair of accesses once per process: a race inside one operation shows up
+	// while that operation is run alone, so the count covers the whole case
+	racesBefore := c15RaceCount()
 	w := world.New()
 	if err := w.CreateRepo("repo"); err != nil {
 		panic(err)
@@ -222,13 +240,12 @@ func c15Run(cs *c15Case, r *gen.Rand) {
 	// all of them together
 	prev := runtime.GOMAXPROCS(cs.Procs)
 	defer runtime.GOMAXPROCS(prev)
-	racesBefore := c15RaceCount()
 	log := &memstore.PutLog{}
 	slow := 0
 	for _, o := range cs.Ops {
 		slow += o.Slow
 	}
-	shared := c15Shared(w, log, int32(slow))
+	shared := c15Shared(w, log, int32(slow), cs.SlowLists)
 	var wg sync.WaitGroup
 	start := make(chan struct{})
 	for i := range cs.Ops {
@@ -256,11 +273,15 @@ func c15Run(cs *c15Case, r *gen.Rand) {
 		cs.Ops[i].Done, cs.Ops[i].Err, cs.Ops[i].Conc = false, "", ""
 	}
 	close(start)
+	deadline := 40 * time.Second
+	if cs.SlowLists {
+		deadline = 300 * time.Second
+	}
 	finished := make(chan struct{})
 	go func() { wg.Wait(); close(finished) }()
 	select {
 	case <-finished:
-	case <-time.After(40 * time.Second):
+	case <-time.After(deadline):
 		cs.Hung = true // some operations never returned: they are reported as not completed
 	}
 	cs.Trace = log.Snapshot()
@@ -310,7 +331,7 @@ func init() {
 		c.CaseTy = "ccase"
 		c.Report = "report"
 		c.PerFile = 4
-		c.Rule = "a repository with two bundles, then 2..16 goroutines started together: uploads, diamond commits (create, split upload, commit), downloads of the initial bundles and label assignments, some starting 1..150 ms late, some uploads writing their first blobs over a slow link (1.2 s for the first write), with file contents drawn from eight values (heavy overlap: the same blobs are written by several operations at once, some spanning several 64-byte leaves); GOMAXPROCS 1, 2, 4 or 16; the binary is built with the Go race detector; every operation is first run alone on a copy of the initial stores; non-trivial = run in which two operations wrote a common blob key, distinct by operations"
+		c.Rule = "a repository with two bundles, then 2..16 goroutines started together: uploads, diamond commits (create, split upload, commit), downloads of the initial bundles and label assignments, some starting 1..150 ms late, some uploads writing their first blobs over a slow link (1.2 s for the first write), attribute reads and touches of blobs delayed by 0.3 ms so that the calls of concurrent flushes overlap, in the thorough tier one run in sixteen made of 2..3 uploads of 1001..1019 small files each while file lists take 60 ms to write, with file contents drawn from eight values (heavy overlap: the same blobs are written by several operations at once, some spanning several 64-byte leaves); GOMAXPROCS 1, 2, 4 or 16; the binary is built with the Go race detector; every operation is first run alone on a copy of the initial stores; non-trivial = run in which two operations wrote a common blob key, distinct by operations"
 		emit := func(cs *c15Case) {
 			key := ""
 			writers := 0
@@ -332,6 +353,7 @@ func init() {
 				if err := json.Unmarshal(raw, &cs); err != nil {
 					panic(err)
 				}
+				c.Pending(&cs)
 				c15Run(&cs, r)
 				emit(&cs)
 			}
@@ -346,6 +368,13 @@ func init() {
 			nops := r.Range(2, 8)
 			if !c.Quick() {
 				nops = r.Range(2, 16)
+			}
+			if !c.Quick() && i%16 == 2 { // uploads of a little over 1000 files each while file lists are slow to write (thorough tier)
+				nops = 0
+				cs.SlowLists = true
+				for k := 0; k < r.Range(2, 3); k++ {
+					cs.Ops = append(cs.Ops, c15Op{Kind: "upload", Many: 1001 + r.Intn(19)})
+				}
 			}
 			for k := 0; k < nops; k++ {
 				o := c15Op{Which: r.Intn(2)}
@@ -367,6 +396,7 @@ func init() {
 				}
 				cs.Ops = append(cs.Ops, o)
 			}
+			c.Pending(cs)
 			c15Run(cs, r)
 			emit(cs)
 			if cs.Hung {
